@@ -48,7 +48,7 @@ PROBES = {'C16': ['several_crossing_in_one_update', 'crossing_and_returning', 'w
                   'inactive_stage', 'empty_fluid', 'ghost_inlet', 'props_to_copy_subset', 'fluid_backflow_into_inlet_zone',
                   'outlet_particle_deleted', 'inlet_recycled', 'ghost_outlet', 'inlet_particle_beyond_upstream_end',
                   'zone_name_contains_other_zone_name', 'manager_used_before_with_other_zone_lengths', 'default_update_classes',
-                  'more_inlets_than_outlets']}
+                  'more_inlets_than_outlets', 'array_drained_to_empty']}
 
 
 # array names: the default ones, and sets in which one zone's name is a suffix / prefix of another's (zone bookkeeping is keyed by name)
@@ -314,6 +314,11 @@ def execute(sc, prop):
     if iinfo_b is not None and abs(iinfo_b.length - n_b * dx) > 1e-9 * max(1.0, iinfo_b.length):
         violate('zone-length', 'length of the second inlet zone computed as %r, expected %r' % (iinfo_b.length, n_b * dx))
     idle_before = _records(inlet_b) if inlet_b is not None else None
+    # every updater works with the ghost array of its own zone, or with none
+    for nm_, io_, want_ in (('inlet', inlet_io, ghost), ('outlet', outlet_io, oghost)) + ((('second inlet', idle_io, None),) if idle_io is not None else ()):
+        if getattr(io_, 'ghost_pa', None) is not want_:
+            violate('foreign-ghost-array', 'the updater of the %s zone was given the ghost array %r, expected %r' % (
+                nm_, getattr(getattr(io_, 'ghost_pa', None), 'name', None), getattr(want_, 'name', None)))
     n_fluid0 = fluid.get_number_of_particles()
     entered = left = deleted_total = 0
     pattern = []
@@ -384,6 +389,15 @@ def execute(sc, prop):
         a_fl = _records(fluid)
         a_ou = _records(outlet)
         what = 'step %d (s=%r, stage=%d)' % (si, s, stage)
+        for pa_ in (inlet, fluid, outlet):
+            nloc_ = int((pa_.get('tag', only_real_particles=False) == 0).sum()) if pa_.get_number_of_particles() else 0
+            if pa_.num_real_particles != nloc_ or pa_.get_number_of_particles(True) != nloc_:
+                violate('real-particle-count', '%s: array %s reports %d real particles, it holds %d Local ones (%d in all)' % (
+                    what, pa_.name, pa_.num_real_particles, nloc_, pa_.get_number_of_particles()))
+            if pa_.get_number_of_particles() == 0:
+                probe('array_drained_to_empty')
+        if viol:
+            break
         if inlet_b is not None:
             def _pos(recs):
                 return sorted((r['token'], r['x'], r['y'], r['z']) for r in recs)
